@@ -48,7 +48,8 @@ class SubstPath:
         self.ret = T.subst(p.ret, subst) if p.ret is not None else None
         self.outcome = p.outcome
         self.unknowns = p.unknowns
-        self.events = p.events
+        # the assumed-away overflow flags speak about the same values as the guard
+        self.events = [(e[0], T.subst(e[1], subst), e[2]) if e[0] == 'no_overflow' else e for e in p.events]
         self.effects = p.effects
         self.loops = p.loops
 
